@@ -70,3 +70,11 @@ def _rimp(test, taken, pred, tmap):
                 if r is not None:
                     return r
     return None
+
+
+def cmp_outcome(state, name, op_types, const):
+    """outcome on this path of the test  <name> OP <const>  (op in op_types), or None"""
+    def pred(e):
+        return (isinstance(e, ast.Compare) and len(e.ops) == 1 and isinstance(e.left, ast.Name) and e.left.id == name
+                and isinstance(e.ops[0], op_types) and isinstance(e.comparators[0], ast.Constant) and e.comparators[0].value == const)
+    return implied(state.conds, pred)
